@@ -15,6 +15,9 @@ from ..utils.pbc import remove_pbc
 
 logger = get_logger_handle(__name__)
 
+# np.trapz was renamed np.trapezoid (numpy 2.0) and removed later
+_trapezoid = getattr(np, "trapezoid", None) or np.trapz
+
 # pylint: disable=dangerous-default-value
 # pylint: disable=invalid-name
 # pylint: disable=too-many-instance-attributes
@@ -39,7 +42,7 @@ def s2_integral(gr: npt.NDArray, gr_bins: npt.NDArray, ndim: int = 3) -> float:
     """
     y = gr * np.log(gr) - gr + 1
     y *= np.power(gr_bins, ndim - 1)
-    return np.trapz(y, gr_bins)
+    return _trapezoid(y, gr_bins)
 
 
 class S2:
